@@ -4,7 +4,7 @@
    oracle: Model/C15Check.v ([c15_holds]). *)
 From Coq Require Import ZArith List Bool.
 From FT Require Import Model.Base Model.Obs Model.C15Metrics Model.C15Check
-                       Proofs.ObsP Proofs.C15RunP Proofs.C15StateP Proofs.C15CheckP.
+                       Proofs.ObsP Proofs.C15RunP Proofs.C15RefP Proofs.C15StateP Proofs.C15CheckP.
 Import ListNotations.
 Open Scope Z_scope.
 
@@ -13,25 +13,29 @@ Open Scope Z_scope.
    with collection off; with collection off no metric call is made; and a session started in
    ANY Metrics state computes the collection-off output. *)
 Theorem C15_transparent :
-  (forall lv r z a b, fst (run true r lv z a b) = fst (run false r lv z a b))
-  /\ (forall lv r z a b, snd (run false r lv z a b) = [])
+  (forall lv r da db z a b, fst (run true r da db lv z a b) = fst (run false r da db lv z a b))
+  /\ (forall lv r da db z a b, snd (run false r da db lv z a b) = [])
   /\ (forall m s, fst (fst (run_session m s))
-                 = fst (run false 0 (s_lv s) (z_init (s_lv s)) (s_a s) (s_b s))).
+                 = fst (run false 0 (s_da s) (s_db s) (s_lv s) (z_init (s_lv s)) (s_a s) (s_b s))).
 Proof. exact (conj run_transparent (conj run_off_silent session_transparent)). Qed.
 Print Assumptions C15_transparent.
 
 (* ---- exact: multiplies and updates.  The number of incCount(payload_mul) and of
    incCount(payload_update) calls made by the nest equals the number of executions of the
-   innermost statement, computed as a recursive sum over the iteration space
-   (non-empty elements; set intersection where both operands carry the variable). *)
-Theorem C15_counts_mul_update : forall lv r z a b,
+   innermost statement — every execution, whatever the addend (0 included) — computed as a
+   recursive sum over the iteration space (non-empty stored elements of a compressed rank, every
+   coordinate of an uncompressed one; set intersection where both operands carry the variable).
+   All integer values, any operand defaults. *)
+Theorem C15_counts_mul_update : forall da db lv r z a b,
   forallb (fun l => la l || lb l) lv = true -> op_ok la lv a -> op_ok lb lv b ->
-  cnt (is_cnt 0) (snd (run true r lv z a b)) = spec_leafs lv a b
-  /\ cnt (is_cnt 2) (snd (run true r lv z a b)) = spec_leafs lv a b.
+  cnt (is_cnt 0) (snd (run true r da db lv z a b)) = spec_leafs da db lv a b
+  /\ cnt (is_cnt 2) (snd (run true r da db lv z a b)) = spec_leafs da db lv a b
+  /\ spec_leafs da db lv a b = Z.of_nat (length (spec_trace da db lv a b)).
 Proof.
-  intros lv r z a b H Ha Hb.
-  exact (conj (run_cnt_leafs 0 (or_introl eq_refl) lv r z a b H Ha Hb)
-              (run_cnt_leafs 2 (or_intror eq_refl) lv r z a b H Ha Hb)).
+  intros da db lv r z a b H Ha Hb.
+  exact (conj (run_cnt_leafs 0 (or_introl eq_refl) da db lv r z a b H Ha Hb)
+              (conj (run_cnt_leafs 2 (or_intror eq_refl) da db lv r z a b H Ha Hb)
+                    (spec_leafs_trace da db lv a b))).
 Qed.
 Print Assumptions C15_counts_mul_update.
 
@@ -43,31 +47,43 @@ Theorem C15_counts_add_rule : forall vz va vb,
 Proof. exact leaf_rule. Qed.
 Print Assumptions C15_counts_add_rule.
 
-(* ---- exact: adds, over whole kernels.
-   Full statement: for ALL operand values, #payload_add = the number of executions of `z += v`
-   whose output point holds a non-zero value at that moment (evaluated on a reference map from
-   output points to values, where a point whose value returns to 0 is deleted again).
-   Proved (partial): for stored values >= 0 and rank-0 operands > 0 — no partial sum cancels, so
-   "old value != 0" is "this output point was written before", and
-       #payload_add = #payload_update - number of non-zero leaves of the output.
-   Missing: the pointwise refinement of the nested output tree to a reference map for signed
-   values (the implementation is still compared with the model's own count on every case). *)
-Theorem C15_counts_add_partial : forall lv r z a b,
-  forallb (fun l => la l || lb l) lv = true -> op_ok la lv a -> op_ok lb lv b -> zpre lv z ->
-  cnt (is_cnt 2) (snd (run true r lv z a b)) - cnt (is_cnt 1) (snd (run true r lv z a b))
-  = nzl (fst (run true r lv z a b)) - nzl z.
-Proof. intros lv r z a b H Ha Hb Hz. exact (proj2 (run_z lv r z a b H Ha Hb Hz)). Qed.
-Print Assumptions C15_counts_add_partial.
+(* ---- exact: adds, over whole kernels, ALL integer values (products and partial sums may be
+   0 or cancel; an output leaf that returns to 0 is deleted and later re-created).  Starting from
+   any well-shaped output tree z: the number of incCount(payload_add) calls equals the number of
+   executions `z_ref += v`, taken in program order from spec_trace, at which the reference map
+   (output point -> current value, initially the values stored in z) is non-zero. *)
+Theorem C15_counts_add : forall da db lv r z a b,
+  forallb (fun l => la l || lb l) lv = true -> op_ok la lv a -> op_ok lb lv b ->
+  zok (cntb lz lv) z ->
+  cnt (is_cnt 1) (snd (run true r da db lv z a b)) = ref_adds (zval z) (spec_trace da db lv a b).
+Proof.
+  intros da db lv r z a b H Ha Hb Hz. exact (proj2 (proj2 (run_ref da db lv r z a b H Ha Hb Hz))).
+Qed.
+Print Assumptions C15_counts_add.
+
+(* ---- and the output tree holds, at every point, the final value of that reference map (the
+   refinement the add count rests on; well-shapedness of the tree is preserved) *)
+Theorem C15_output_is_reference_map : forall da db lv r z a b,
+  forallb (fun l => la l || lb l) lv = true -> op_ok la lv a -> op_ok lb lv b ->
+  zok (cntb lz lv) z ->
+  zok (cntb lz lv) (fst (run true r da db lv z a b))
+  /\ forall p, zval (fst (run true r da db lv z a b)) p
+               = ref_final (zval z) (spec_trace da db lv a b) p.
+Proof.
+  intros da db lv r z a b H Ha Hb Hz. destruct (run_ref da db lv r z a b H Ha Hb Hz) as [H1 [H2 _]].
+  exact (conj H1 H2).
+Qed.
+Print Assumptions C15_output_is_reference_map.
 
 (* ---- iterations: the number of addUse(rank q, "iter") calls = the number of loop bodies
    executed at depth q - r (0 for ranks outside the nest); and a rank's rows are only produced
    after the rank was registered (all inputs). *)
 Theorem C15_iters :
-  (forall lv r z a b q,
+  (forall da db lv r z a b q,
      forallb (fun l => la l || lb l) lv = true -> op_ok la lv a -> op_ok lb lv b ->
-     cnt (is_use q) (snd (run true r lv z a b))
-     = if Z.ltb q r then 0 else spec_bodies (Z.to_nat (q - r)) lv a b)
-  /\ (forall lv r z a b q, reg_first q (snd (run true r lv z a b))).
+     cnt (is_use q) (snd (run true r da db lv z a b))
+     = if Z.ltb q r then 0 else spec_bodies (Z.to_nat (q - r)) da db lv a b)
+  /\ (forall da db lv r z a b q, reg_first q (snd (run true r da db lv z a b))).
 Proof. exact (conj run_cnt_use run_reg_first). Qed.
 Print Assumptions C15_iters.
 
@@ -116,24 +132,28 @@ Theorem C15_model_meets_spec : forall c,
 Proof. exact model_meets_spec. Qed.
 Print Assumptions C15_model_meets_spec.
 
-(* non-vacuity: a 2x3 by 3x2 matrix product (loop order m, k, n) after an aborted session that
-   traced the same ranks; well-formed, 5 innermost executions, one of them an add. *)
+(* non-vacuity: a 2x3 by 3x2 matrix product (loop order m, k, n) with signed values, B's K rank
+   uncompressed, A's default 3 with an explicit 0, after an aborted session that traced the same
+   ranks; well-formed; 7 innermost executions, two with a zero addend, one sum that cancels to 0 (the
+   output leaf is deleted and the row re-created later), one add. *)
 Definition ex_A : tree :=
-  Node [(0, Node [(0, Leaf 1); (1, Leaf 2)]); (1, Node [(1, Leaf 3); (2, Leaf 4)])].
+  Node [(0, Node [(0, Leaf 1); (1, Leaf (-2))]); (1, Node [(1, Leaf 0); (2, Leaf 4)])].
 Definition ex_B : tree :=
-  Node [(0, Node [(0, Leaf 1)]); (1, Node [(1, Leaf 5)]); (2, Node [(0, Leaf 6); (1, Leaf 7)])].
+  Node [(0, Node [(0, Leaf 2)]); (1, Node [(0, Leaf 1); (1, Leaf 5)]); (2, Node [(0, Leaf 6); (1, Leaf (-7))])].
 Definition ex_s (e : bool) : session :=
-  {| s_lv := [(true, true, false); (false, true, true); (true, false, true)];
-     s_a := ex_A; s_b := ex_B; s_traces := [(0, 0); (1, 0); (2, 0)]; s_zshape := false; s_end := e |}.
+  {| s_lv := [Build_level true true false false false 2; Build_level false true true false true 3;
+              Build_level true false true false false 2];
+     s_a := ex_A; s_b := ex_B; s_da := 3; s_db := 0;
+     s_traces := [(0, 0); (1, 0); (2, 0)]; s_zshape := false; s_end := e |}.
 Definition ex_case : c15_case := {| k_prior := [ex_s false]; k_final := ex_s true |}.
 
 Example C15_nonvacuous :
   c15_wf ex_case = true
   /\ c15_model ex_case
-     = VL [V_tree (Node [(0, Node [(0, Leaf 1); (1, Leaf 10)]); (1, Node [(0, Leaf 24); (1, Leaf 43)])]);
-           V_tree (Node [(0, Node [(0, Leaf 1); (1, Leaf 10)]); (1, Node [(0, Leaf 24); (1, Leaf 43)])]);
-           VL [VZ 5; VZ 1; VZ 5]; VL [VZ 5; VZ 1; VZ 5];
-           VL [VL [VZ 2]; VL [VZ 4]; VL [VZ 5]]]
+     = VL [V_tree (Node [(0, Node [(1, Leaf (-10))]); (1, Node [(0, Leaf 24); (1, Leaf (-28))])]);
+           V_tree (Node [(0, Node [(1, Leaf (-10))]); (1, Node [(0, Leaf 24); (1, Leaf (-28))])]);
+           VL [VZ 7; VZ 1; VZ 7]; VL [VZ 7; VZ 1; VZ 7];
+           VL [VL [VZ 2]; VL [VZ 4]; VL [VZ 7]]]
   /\ op_ok la (s_lv (ex_s true)) ex_A /\ op_ok lb (s_lv (ex_s true)) ex_B
-  /\ zpre (s_lv (ex_s true)) (z_init (s_lv (ex_s true))).
-Proof. repeat split; vm_compute; reflexivity. Qed.
+  /\ zok (cntb lz (s_lv (ex_s true))) (z_init (s_lv (ex_s true))).
+Proof. repeat split; vm_compute; try reflexivity; repeat constructor. Qed.
